@@ -330,10 +330,9 @@ int liberasurecode_instance_create(const ec_backend_id_t id,
         return -EBACKENDINITERR;
     }
 
-    /* Register instance and return a descriptor/instance id */
-    instance->idesc = liberasurecode_backend_instance_register(instance);
-
-    return instance->idesc;
+    /* Register instance and return a descriptor/instance id
+     * (register stores it in the instance while holding the registry lock) */
+    return liberasurecode_backend_instance_register(instance);
 }
 
 /**
